@@ -27,8 +27,11 @@ class ProgGen:
     """Terminating programs in a core fragment.  Every `println` site carries a
     unique token so that each output line is attributable to one step."""
 
-    def __init__(self, rng: Rng, size=12, tag="p", allow_throw=True):
+    def __init__(self, rng: Rng, size=12, tag="p", allow_throw=True, wide=None):
         self.r = rng
+        # "wide" programs also use the prelude's Garden-implemented methods (closures called from
+        # library loops), dicts, Result, tuple destructuring in `for`, assert; decided per program
+        self.wide = rng.fork("wide").chance(0.5) if wide is None else wide
         self.size = size
         self.tag = tag
         self.n_var = 0
@@ -105,7 +108,44 @@ class ProgGen:
             return f"(fun({y}) {{ {y} + {self.int_expr(sc, depth + 1)} }})({self.int_expr(sc, depth + 1)})"
         if k == 11 and sc.all("S"):
             return f"{r.choice(sc.all('S'))}.len()"
+        if self.wide:
+            return self.wide_int_expr(sc, depth)
         return str(r.randint(0, 12))
+
+    def wide_int_expr(self, sc, depth):
+        r = self.r
+        k = r.below(12)
+        lst = self.list_expr(sc, depth + 1)
+        y = self.fresh("c")
+        if k == 0:
+            return f"{lst}.map(fun({y}) {{ {y} * {r.randint(0, 3)} + {self.int_expr(sc, 3)} }}).len()"
+        if k == 1:
+            return f"{lst}.filter(fun({y}) {{ {y} < {self.int_expr(sc, 3)} }}).len()"
+        if k == 2:
+            return f"sort_nums({lst}).first().or_value({r.randint(0, 9)})"
+        if k == 3:
+            return f"max({self.int_expr(sc, depth + 1)}, min({self.int_expr(sc, depth + 1)}, {r.randint(0, 9)}))"
+        if k == 4:
+            return f"{lst}.concat(range(0, {r.randint(0, 4)})).index_of({r.randint(0, 5)}).or_value(-1)"
+        if k == 5:
+            key = r.choice(['"a"', '"b"', '"c"', '"z"'])
+            return (f"Dict[\"a\" => {self.int_expr(sc, depth + 1)}, \"b\" => {r.randint(0, 9)}]"
+                    f".set(\"c\", {r.randint(0, 9)}).get({key}).or_value(7)")
+        if k == 6:
+            x = self.fresh("m")
+            e = self.fresh("m")
+            scrut = r.choice([f"Ok({self.int_expr(sc, depth + 1)})", "Err(\"bad\")"])
+            return f"match {scrut} {{ Ok({x}) => {x} + 1 Err({e}) => {e}.len() }}"
+        if k == 7:
+            return f"{lst}.slice(0, {r.randint(0, 3)}).last().or_value({r.randint(0, 9)})"
+        if k == 8:
+            word = "-".join("ab"[:r.randint(1, 2)] for _ in range(r.randint(1, 4)))
+            return f"\"{word}\".split(\"-\").len()"
+        if k == 9:
+            return f"Some({self.int_expr(sc, depth + 1)}).or_throw()"
+        if k == 10:
+            return f"{self.str_expr(sc, 1)}.replace(\"s\", \"tt\").trim().len()"
+        return f"{lst}.enumerate().len()"
 
     def bool_expr(self, sc, depth=0):
         r = self.r
@@ -114,8 +154,12 @@ class ProgGen:
             if vs and r.chance(0.5):
                 return r.choice(vs)
             return r.choice(["True", "False"])
-        k = r.below(6)
+        k = r.below(8 if self.wide else 6)
         a, b = self.int_expr(sc, depth + 1), self.int_expr(sc, depth + 1)
+        if k == 6:
+            return f"{self.list_expr(sc, depth + 1)}.contains({a})"
+        if k == 7:
+            return f"{self.str_expr(sc, 1)}.starts_with(\"s{r.randint(0, 9)}\")"
         if k == 0:
             return f"({a} < {b})"
         if k == 1:
@@ -135,7 +179,11 @@ class ProgGen:
             if vs and r.chance(0.5):
                 return r.choice(vs)
             return f"\"s{r.randint(0, 99)}\""
-        k = r.below(3)
+        k = r.below(5 if self.wide else 3)
+        if k == 3:
+            return f"\", \".join({self.list_expr(sc, 2)}.map(fun(j{self.fresh('c')}) {{ \"n\" }}))"
+        if k == 4:
+            return f"{self.str_expr(sc, depth + 1)}.substring(0, {r.randint(0, 3)})"
         if k == 0:
             return f"({self.str_expr(sc, depth + 1)} ^ {self.str_expr(sc, depth + 1)})"
         if k == 1:
@@ -275,6 +323,31 @@ class ProgGen:
             sc.add("I", v)
             return (f"let {cl} = fun({y}) {{ ({y} + {e1}) % 1000 }} "
                     f"let {v} = {cl}({e2})")
+        if k == 15 and self.wide:
+            j = r.below(4)
+            if j == 0:
+                i, x = self.fresh("x"), self.fresh("x")
+                self.loop_depth += 1
+                inner = sc.child()
+                inner.add("I", i)
+                inner.add("I", x)
+                body = " ".join(self.stmt(inner) for _ in range(r.randint(1, 2)))
+                self.loop_depth -= 1
+                return f"for ({i}, {x}) in {self.list_expr(sc)}.enumerate() {{ {body} }}"
+            if j == 1:
+                a = self.int_expr(sc, 2)
+                return f"assert(({a}) == ({a}))"
+            if j == 2:
+                kk, vv = self.fresh("x"), self.fresh("x")
+                inner = sc.child()
+                inner.add("I", vv)
+                self.loop_depth += 1
+                body = self.stmt(inner)
+                self.loop_depth -= 1
+                return (f"for ({kk}, {vv}) in Dict[\"k1\" => {self.int_expr(sc, 2)}, \"k2\" => {self.int_expr(sc, 2)}].items() "
+                        f"{{ {body} }}")
+            t = self.token()
+            return f"{self.list_expr(sc)}.map(fun(w{self.fresh('c')}) {{ println(\"{t}\") 0 }})"
         return self.print_stmt(sc)
 
     # -- definitions ----------------------------------------------
@@ -343,9 +416,9 @@ class ProgGen:
         return stmts
 
 
-def gen_prog(rng, size=12, tag="p"):
+def gen_prog(rng, size=12, tag="p", wide=None):
     """Returns (definitions source, toplevel statements list)."""
-    g = ProgGen(rng, size=size, tag=tag)
+    g = ProgGen(rng, size=size, tag=tag, wide=wide)
     defs = g.gen_defs()
     main = g.gen_main()
     return "\n".join(defs), main
